@@ -62,7 +62,7 @@ func trustMetadata(t []string) *saml.EntityDescriptor {
 func trustHistoryRun(t *testing.T, prop, kind string) {
 	rep := NewReport(prop)
 	defer rep.Finish(t)
-	rep.Rule = "every history of spec/SPTrustHistory.tla (initial trust set, then up to MaxLen steps of: replace / edit in place the IdP metadata the SP trusts; present a " + kind + " whose only signature is by K1, K2 or an outsider's key) that ends in a presented message is replayed on ONE real ServiceProvider value; a message accepted although its key is not in the configuration in force violates the statement; all other disagreements with the model are drift"
+	rep.Rule = "every history of spec/SPTrustHistory.tla (initial trust set, then up to MaxLen steps of: replace / edit in place the IdP metadata the SP trusts; present a " + kind + " whose only signature is by K1, K2 or an outsider's key) that ends in a presented message is replayed on ONE real ServiceProvider value; each history is run twice: the configuration changed by assigning a new metadata value (a message accepted although its key is not in the configuration in force then violates the statement) and by editing the held value in place (disagreements are drift); all other disagreements with the model are drift"
 	lines := loadLines(t, "trusthist.ndjson")
 	if len(lines) == 0 {
 		rep.Break("no histories")
@@ -95,70 +95,74 @@ func trustHistoryRun(t *testing.T, prop, kind string) {
 			return
 		}
 		sig := h.sig()
-		// how the configuration is changed: a new metadata value, or the descriptors edited in place
-		inPlace := (int(hashKey(sig)[0])+int(seedVal()))%2 == 0
-		var s *saml.ServiceProvider
-		var current []string
-		var obs []string
-		for n, st := range h.Hist {
-			switch st.A {
-			case "init":
-				s = newSP(trustMetadata(st.T))
-				current = st.T
-			case "set":
-				if inPlace {
-					s.IDPMetadata.IDPSSODescriptors[0].KeyDescriptors = trustKeyDescriptors(st.T)
-				} else {
-					s.IDPMetadata = trustMetadata(st.T)
-				}
-				current = st.T
-			case "present":
-				accepted := false
-				detail := ""
-				p, msg := safely(func() {
-					if st.Kind == "response" {
-						a, err := s.ParseXMLResponse(mkResponse(st.K, n), []string{"id-req-1"}, mustURL(spACS))
-						accepted = err == nil && a != nil
-						if err != nil {
-							detail = err.Error()
-							if ire, ok := err.(*saml.InvalidResponseError); ok && ire.PrivateErr != nil {
-								detail = ire.PrivateErr.Error()
+		// how the configuration is changed: a new metadata value is assigned (what an application that
+		// refreshes metadata does; the statement is judged on this), or the key descriptors of the value
+		// the SP already holds are edited in place (an implementation may legitimately key a cache on
+		// the identity of the metadata value: disagreements there are drift)
+		for _, inPlace := range []bool{false, true} {
+			var s *saml.ServiceProvider
+			var current []string
+			var obs []string
+			for n, st := range h.Hist {
+				switch st.A {
+				case "init":
+					s = newSP(trustMetadata(st.T))
+					current = st.T
+				case "set":
+					if inPlace {
+						s.IDPMetadata.IDPSSODescriptors[0].KeyDescriptors = trustKeyDescriptors(st.T)
+					} else {
+						s.IDPMetadata = trustMetadata(st.T)
+					}
+					current = st.T
+				case "present":
+					accepted := false
+					detail := ""
+					p, msg := safely(func() {
+						if st.Kind == "response" {
+							a, err := s.ParseXMLResponse(mkResponse(st.K, n), []string{"id-req-1"}, mustURL(spACS))
+							accepted = err == nil && a != nil
+							if err != nil {
+								detail = err.Error()
+								if ire, ok := err.(*saml.InvalidResponseError); ok && ire.PrivateErr != nil {
+									detail = ire.PrivateErr.Error()
+								}
+							}
+						} else {
+							err := s.ValidateLogoutResponseForm(mkLogout(st.K, n))
+							accepted = err == nil
+							if err != nil {
+								detail = err.Error()
 							}
 						}
-					} else {
-						err := s.ValidateLogoutResponseForm(mkLogout(st.K, n))
-						accepted = err == nil
-						if err != nil {
-							detail = err.Error()
-						}
+					})
+					obs = append(obs, fmt.Sprintf("%s/%s:%v", st.Kind, st.K, accepted))
+					trusted := false
+					for _, c := range current {
+						trusted = trusted || c == st.K
 					}
-				})
-				obs = append(obs, fmt.Sprintf("%s/%s:%v", st.Kind, st.K, accepted))
-				trusted := false
-				for _, c := range current {
-					trusted = trusted || c == st.K
-				}
-				key_ := fmt.Sprintf("%s:trust-history:%s:step=%d:inplace=%v", prop, sig, n, inPlace)
-				replay := map[string]any{"history": h, "step": n, "edited_in_place": inPlace, "observed": obs, "error": detail}
-				rep.Eval(map[bool]string{true: "Trusted", false: "Untrusted"}[trusted], sig)
-				if p {
-					rep.DriftCase(key_+":panic", "panic: "+strings.SplitN(msg, "\n", 2)[0], replay)
-					return
-				}
-				if st.Kind == kind && accepted && !trusted {
-					what := map[string]string{"response": "returned an assertion", "logout": "reported the logout response valid"}[kind]
-					rep.Violation(fmt.Sprintf("%s:trust-history:%s", prop, sig), fmt.Sprintf("step %d: the SP %s whose only signature is by %s, while its configuration at that moment trusts only %v (configuration %s)", n, what, st.K, current, map[bool]string{true: "edited in place", false: "replaced"}[inPlace]), replay)
-					return
-				}
-				if accepted != (st.V == "accept") {
-					rep.DriftCase(key_, fmt.Sprintf("step %d: %s signed by %s under trust %v: real accepted=%v (%s), model %s", n, st.Kind, st.K, current, accepted, detail, st.V), replay)
-					return
+					key_ := fmt.Sprintf("%s:trust-history:%s:step=%d:inplace=%v", prop, sig, n, inPlace)
+					replay := map[string]any{"history": h, "step": n, "edited_in_place": inPlace, "observed": obs, "error": detail}
+					rep.Eval(map[bool]string{true: "Trusted", false: "Untrusted"}[trusted], sig)
+					if p {
+						rep.DriftCase(key_+":panic", "panic: "+strings.SplitN(msg, "\n", 2)[0], replay)
+						return
+					}
+					if st.Kind == kind && accepted && !trusted && !inPlace {
+						what := map[string]string{"response": "returned an assertion", "logout": "reported the logout response valid"}[kind]
+						rep.Violation(fmt.Sprintf("%s:trust-history:%s", prop, sig), fmt.Sprintf("step %d: the SP %s whose only signature is by %s, while its configuration at that moment trusts only %v (configuration %s)", n, what, st.K, current, map[bool]string{true: "edited in place", false: "replaced"}[inPlace]), replay)
+						return
+					}
+					if accepted != (st.V == "accept") {
+						rep.DriftCase(key_, fmt.Sprintf("step %d: %s signed by %s under trust %v: real accepted=%v (%s), model %s", n, st.Kind, st.K, current, accepted, detail, st.V), replay)
+						return
+					}
 				}
 			}
-		}
-		rep.Trace(len(h.Hist))
-		if i%211 == 0 {
-			rep.Sample(map[string]any{"history": sig, "edited_in_place": inPlace, "observed": obs})
+			rep.Trace(len(h.Hist))
+			if i%211 == 0 {
+				rep.Sample(map[string]any{"history": sig, "edited_in_place": inPlace, "observed": obs})
+			}
 		}
 	})
 	rep.Extra["histories"] = len(lines)
